@@ -537,8 +537,13 @@ PTRef Interpret::parseTerm(const ASTNode& term, LetRecords& letRecords) {
         if (tr == PTRef_Undef) return tr;
 
         if (strcmp(name_attr.getValue(), ":named") == 0) {
+            // the grammar makes the value of an attribute optional, and it need not be a symbol
+            if (not name_attr.children or name_attr.children->empty() or
+                ((**(name_attr.children->begin())).getType() != SYM_T and (**(name_attr.children->begin())).getType() != QSYM_T)) {
+                notify_formatted(true, "the :named attribute needs a symbol");
+                return PTRef_Undef;
+            }
             ASTNode& sym = **(name_attr.children->begin());
-            assert(sym.getType() == SYM_T or sym.getType() == QSYM_T);
             char const * str = sym.getValue();
             bool const taken = std::as_const(*main_solver).getTermNames().contains(str) or
                                std::any_of(pendingTermNames.begin(), pendingTermNames.end(),
